@@ -502,7 +502,7 @@ func (l *Lexer) advance() {
 }
 
 func (l *Lexer) skipSpaces() {
-	for l.pos < len(l.input) && l.input[l.pos] == ' ' {
+	for l.pos < len(l.input) && (l.input[l.pos] == ' ' || l.input[l.pos] == '\t') {
 		l.advance()
 	}
 }
